@@ -26,6 +26,7 @@ func (m FloatMode) String() string {
 // prelude of each obligation of the unit.
 type World struct {
 	FM       FloatMode
+	IntBV    bool // integers are bit-vectors of their exact width (`mode bv`)
 	dts      map[string]*DT
 	dtOrder  []*DT
 	decls    []string          // declare-fun / define-fun lines, in order
@@ -154,6 +155,10 @@ func (w *World) SortOf(t types.Type) string {
 		case u.Info()&types.IsBoolean != 0:
 			return "Bool"
 		case u.Info()&types.IsInteger != 0:
+			if w.IntBV {
+				bits, _ := intBits(u)
+				return bvSort(bits)
+			}
 			return "Int"
 		case u.Info()&types.IsFloat != 0:
 			return "Float"
@@ -258,6 +263,10 @@ func (w *World) Zero(t types.Type) *Term {
 		case u.Info()&types.IsBoolean != 0:
 			return False
 		case u.Info()&types.IsInteger != 0:
+			if w.IntBV {
+				bits, _ := intBits(u)
+				return bvLit(new(bigInt), bits)
+			}
 			return IntLit(0)
 		case u.Info()&types.IsFloat != 0:
 			return w.FConst(0)
